@@ -95,6 +95,8 @@ def fmt_atom(fn, a):
         return "event %s" % (a[1:],)
     if a[0] == "alloc":
         return "%s = %s" % (fmt_key(fn, a[1]), fmt_key(fn, a[2]))
+    if a[0] == "capge":
+        return "capacity(%s) >= %s" % (fmt_key(fn, a[1]), fmt_key(fn, a[2]))
     return str(a)
 
 
@@ -283,6 +285,130 @@ def written_vars(prog, fn, e, out=None, top=True):
     elif t == "ret":
         if e[1] is not None:
             written_vars(prog, fn, e[1], out, False)
+    return out
+
+
+# ---------------------------------------------------------------------- field-sensitive access paths
+def lvalue_path(fn, e):
+    """(variable, field) designated by an lvalue / pointer expression: the field
+    is the member selected directly on the variable (a->used -> (a,'used'),
+    a->dp[i] -> (a,'dp'), a -> (a,None), *p -> (p,None)); (None,None) if there
+    is no base variable"""
+    field = None
+    guard = 0
+    while isinstance(e, list) and e and guard < 40:
+        guard += 1
+        t = e[0]
+        if t == "v":
+            return e[1], field
+        if t == "m":
+            field = e[2]
+            e = e[1]
+        elif t == "x":
+            field = None
+            e = e[1]
+        elif t == "u" and e[1] in ("*", "&"):
+            if e[1] == "*":
+                field = None
+            e = e[2]
+        elif t == "k":
+            e = e[2]
+        elif t == "b" and e[1] in ("+", "-"):
+            e = e[2]
+        elif t == "r":
+            el = fn.elems.get(e[1])
+            if el is None:
+                return None, None
+            e = el.e
+        else:
+            return None, None
+    return None, None
+
+
+def key_paths(k, out=None):
+    """(variable, field) pairs a canonical key depends on"""
+    if out is None:
+        out = set()
+    if not isinstance(k, tuple) or not k:
+        return out
+    t = k[0]
+    if t == "v" and len(k) == 2:
+        out.add((k[1], None))
+    elif t == "m" and len(k) == 3:
+        b = k[1]
+        if isinstance(b, tuple) and len(b) == 2 and b[0] == "v":
+            out.add((b[1], k[2]))
+        else:
+            key_paths(b, out)
+    else:
+        for x in k:
+            if isinstance(x, tuple):
+                key_paths(x, out)
+    return out
+
+
+def atom_paths(a):
+    out = set()
+    if a[0] == "cmp":
+        key_paths(a[1], out)
+    elif a[0] == "rel":
+        key_paths(a[1], out)
+        key_paths(a[3], out)
+    elif a[0] in ("ev", "capge"):
+        for x in a[1:]:
+            key_paths(x, out)
+    return out
+
+
+def paths_hit(deps, wp):
+    """does a write to the paths `wp` invalidate something depending on `deps`?"""
+    for v, f in deps:
+        for wv, wf in wp:
+            if v == wv and (f is None or wf is None or f == wf):
+                return True
+    return False
+
+
+def written_paths(prog, fn, e, out=None):
+    """(variable, field|None) pairs the element tree `e` may write"""
+    if out is None:
+        out = set()
+    if not isinstance(e, list) or not e:
+        return out
+    for n in ir.walk(fn, e):
+        t = n[0]
+        if t in ("=", "o="):
+            lhs = n[1] if t == "=" else n[2]
+            v, f = lvalue_path(fn, lhs)
+            if v is not None:
+                out.add((v, f))
+        elif t == "u" and n[1] in ("++", "--", "p++", "p--"):
+            v, f = lvalue_path(fn, n[2])
+            if v is not None:
+                out.add((v, f))
+        elif t == "d":
+            out.add((n[1], None))
+        elif t == "c":
+            name = n[1]
+            cal = prog.callees.get(name) if name else None
+            params = cal["params"] if cal else None
+            for i, a in enumerate(n[2]):
+                if not ir.arg_is_pointer(n, i):
+                    continue
+                v, f = lvalue_path(fn, a)
+                if v is None:
+                    continue
+                aa = ir.strip_casts(fn.resolve(a))
+                is_addr = isinstance(aa, list) and aa[0] == "u" and aa[1] == "&"
+                if params is not None and i < len(params):
+                    p = params[i]
+                    if "pc" in p and not p["pc"] and callee_writes_arg(prog, fn, name, i):
+                        out.add((v, f))
+                else:
+                    if name in PURE_EXTERNALS:
+                        continue
+                    if is_addr or params is None:
+                        out.add((v, f))
     return out
 
 
@@ -512,6 +638,7 @@ class Facts:
         self.edge_gen = edge_gen
         self.mark_thrown = mark_thrown
         self._wcache = {}
+        self._wpcache = {}
         self.follow = follow
         self.assign_atoms = assign_atoms
         self.IN = forward_must(g, init, self._transfer, self._edge, follow)
@@ -524,6 +651,13 @@ class Facts:
             else:
                 w = set()
             self._wcache[node.id] = w
+        return w
+
+    def wpaths(self, node):
+        w = self._wpcache.get(node.id)
+        if w is None:
+            w = written_paths(self.prog, self.fn, node.el.e) if node.kind == "el" else set()
+            self._wpcache[node.id] = w
         return w
 
     def _transfer(self, node, s):
@@ -539,16 +673,19 @@ class Facts:
             s = self.extra_kill(node, s)
         if w:
             dw = None
+            wp = self.wpaths(node)
             keep = []
             for a in s:
-                if a[0] == "alloc":
-                    # the size of an allocation survives writes *through* the pointer
+                if a[0] in ("alloc", "capge"):
+                    # the size of an allocation / a granted capacity survives writes *through* the pointer
                     if dw is None:
                         dw = directly_assigned(self.fn, node.el.e)
-                    if a[1][1] in dw or (key_vars(a[2]) & w):
+                    if a[1][1] in dw or paths_hit(key_paths(a[2]), wp):
+                        continue
+                    if a[0] == "capge" and (a[1][1], None) in wp:
                         continue
                     keep.append(a)
-                elif not (atom_vars(a) & w):
+                elif not paths_hit(atom_paths(a), wp):
                     keep.append(a)
             s = frozenset(keep)
         if self.assign_atoms:
@@ -570,6 +707,7 @@ class Facts:
                 atoms = cond_atoms(self.fn, t["c"], label == "T")
                 if atoms:
                     if self.edge_gen:
+                        self.edge_state = s
                         atoms = list(atoms) + list(self.edge_gen(node, label, atoms) or ())
                     return s | frozenset(atoms)
         elif node.kind == "br" and isinstance(label, tuple) and label[0] == "case":
@@ -577,6 +715,7 @@ class Facts:
             if t and t.get("c") is not None and isinstance(label[1], int):
                 atoms = [("cmp", key(self.fn, t["c"]), "==", label[1])]
                 if self.edge_gen:
+                    self.edge_state = s
                     atoms = atoms + list(self.edge_gen(node, label, atoms) or ())
                 return s | frozenset(atoms)
         return s
